@@ -13,6 +13,7 @@ From Bobo Require Import Base.Prelude Base.History Model.Pattern Model.Run Model
 From Bobo Require Import Proofs.RunProofs Proofs.DeciderLemmas Proofs.DeciderProofs Proofs.StepProofs.
 From Bobo Require Import Model.Cluster Model.ConvergeC.
 From Bobo Require Import Proofs.RemoteProofs Proofs.ConvergeProofs Proofs.JoinProofs Proofs.LocalProofs Proofs.SimProofs.
+From Bobo Require Import Model.PredLang Proofs.ConvergeExample.
 
 (* once every announcement has reached every instance, all instances hold every run at the same status:
    same set of partially completed runs, at the same positions; for EVERY execution of the abstract system *)
@@ -142,4 +143,18 @@ Proof.
     + intros x H. simpl in H. simpl. destruct (Z.eqb_spec x 7) as [Hx|Hx]; [subst x; now left|congruence].
     + reflexivity.
   - intros f j Hj Hf. simpl in Hf. destruct Hf as [<-|[]]. destruct j; [reflexivity|lia].
+Qed.
+
+(* non-vacuity of C04_model_convergence on the DECIDER MODEL: two deciders, non-singleton pattern a ; b, event a at
+   instance 0, its note delivered to instance 1 - a legal execution (every side condition of both steps proved on
+   the concrete states) after which everything announced has been delivered and both hold run 1000 at Active 1 1 *)
+Example C04_model_convergence_nonvacuous :
+  (forall ph pat p, get_pattern cx_cfg ph pat = Some p -> p_single p = false) /\
+  cfg_wf ev cx_cfg /\ c_maxcache cx_cfg <> O /\
+  csteps ev cx_owner cx_cfg cx_gen (c_init ev) cx_c2 /\
+  all_delivered 2 (abs ev cx_owner cx_c2) /\
+  cstatus cx_owner (c_st ev cx_c2 0) 1000 = Active 1 1 /\ cstatus cx_owner (c_st ev cx_c2 1) 1000 = Active 1 1.
+Proof.
+  split; [exact cx_pat|]. split; [exact cx_cfg_wf|]. split; [discriminate|]. split; [exact cx_csteps|].
+  split; [exact cx_all_delivered|exact cx_statuses].
 Qed.
